@@ -502,3 +502,11 @@ package tubes
 //@   ensures old(r.tubeState) == tubes.closeWait ==> r.tubeState == tubes.lastAck && called(tubes.Reliable.enterLastAckState)
 //@   ensures old(r.tubeState) == tubes.initiated || old(r.tubeState) == tubes.closeWait ==> callcount(tubes.sender.sendFin) == 1 && err == resultof(tubes.sender.sendFin, err)
 //@   ensures old(r.tubeState) != tubes.initiated && old(r.tubeState) != tubes.closeWait ==> r.tubeState == old(r.tubeState) && err != nil && !called(tubes.sender.sendFin)
+
+// (C09 / C16) an unreliable tube hands each accepted frame's data to its reader as ONE message (a non-blocking send;
+// a full queue drops the message) and closes the reader's queue only for a frame that carries FIN - never for data.
+//@ func (u *Unreliable) receive(pkt *frame) (err error)
+//@   property C09 C16
+//@   atomic
+//@   ensures called(common.DeadlineChan.Close) ==> pkt.flags.FIN && err == nil
+//@   ensures !pkt.flags.FIN ==> !called(common.DeadlineChan.Close)
